@@ -361,21 +361,87 @@ func c19FormatParse(p *core.Program, r *core.Report) {
 		r.Undec("C19.format-parse", "util/dateutil.DateFormat", "-", "format/Parse not found")
 		return
 	}
+	// Per-letter walk: for every pattern letter (and for a non-letter) the body of the loop over the
+	// pattern is walked with the letter's value known; conditions and widths that depend only on the
+	// letter (switch/if chains, a width helper, a width local) are evaluated, everything else is
+	// explored on both outcomes. Recorded: the width handed to the number formatter/parser and whether a
+	// literal is moved as a rune or a byte.
+	letters := map[string]int64{}
+	if pk := p.Pkg("util/dateutil"); pk != nil {
+		for _, nm := range pk.Types.Scope().Names() {
+			if cst, ok := pk.Types.Scope().Lookup(nm).(*types.Const); ok && strings.HasPrefix(nm, "DATEFORMAT_") {
+				var v int64
+				if _, err := fmt.Sscanf(cst.Val().ExactString(), "%d", &v); err == nil {
+					letters[cst.Val().ExactString()] = v
+				}
+			}
+		}
+	}
 	widths := func(fi *core.FuncInfo, fn string) (map[string]int64, string) {
 		out := map[string]int64{}
 		def := ""
+		info := fi.Pkg.TypesInfo
+		// the loop over the pattern: a range statement whose value variable is the letter
+		var loop *ast.RangeStmt
 		ast.Inspect(fi.Decl.Body, func(n ast.Node) bool {
-			cl, ok := n.(*ast.CaseClause)
-			if !ok {
-				return true
+			if rs, ok := n.(*ast.RangeStmt); ok && loop == nil && rs.Value != nil {
+				loop = rs
 			}
-			var w int64 = -1
-			unit := ""
-			ast.Inspect(cl, func(m ast.Node) bool {
-				if call, ok := m.(*ast.CallExpr); ok {
+			return true
+		})
+		if loop == nil {
+			return out, "?"
+		}
+		vid, _ := loop.Value.(*ast.Ident)
+		if vid == nil {
+			return out, "?"
+		}
+		chObj := info.Defs[vid]
+		callee := func(call *ast.CallExpr) ([]types.Object, *ast.BlockStmt) {
+			id, ok := ast.Unparen(call.Fun).(*ast.Ident)
+			if !ok {
+				return nil, nil
+			}
+			fnObj, _ := info.Uses[id].(*types.Func)
+			cfi := p.FuncOf(fnObj)
+			if cfi == nil || cfi.Decl.Body == nil || cfi.Pkg != fi.Pkg {
+				return nil, nil
+			}
+			var ps []types.Object
+			for _, f := range cfi.Decl.Type.Params.List {
+				for _, n := range f.Names {
+					ps = append(ps, info.Defs[n])
+				}
+			}
+			return ps, cfi.Decl.Body
+		}
+		walkLetter := func(val int64) (w int64, unit string) {
+			w = -1
+			ints := map[types.Object]int64{chObj: val}
+			tryInt := func(e ast.Expr) (int64, bool) {
+				ev := &ordEval{info: info, side: func(ast.Expr) (string, string) { return "", "" }, ints: ints, bools: map[string]bool{}, callee: callee}
+				n := ev.evalInt(e)
+				return n, ev.err == ""
+			}
+			tryBool := func(e ast.Expr) (bool, bool) {
+				ev := &ordEval{info: info, side: func(ast.Expr) (string, string) { return "", "" }, ints: ints, bools: map[string]bool{}, callee: callee}
+				b := ev.evalBool(e)
+				return b, ev.err == ""
+			}
+			var scanCalls func(n ast.Node)
+			scanCalls = func(n ast.Node) {
+				ast.Inspect(n, func(m ast.Node) bool {
+					call, ok := m.(*ast.CallExpr)
+					if !ok {
+						return true
+					}
 					s := stripSpaces(types.ExprString(call.Fun))
 					if strings.HasSuffix(s, fn) && len(call.Args) == 2 {
-						w, _ = constIntOf(fi.Pkg.TypesInfo, call.Args[1])
+						if v, ok := tryInt(call.Args[1]); ok {
+							w = v
+						} else {
+							w = -2
+						}
 					}
 					if strings.HasSuffix(s, ".WriteRune") || strings.HasSuffix(s, ".ReadRune") {
 						unit = "rune"
@@ -383,20 +449,114 @@ func c19FormatParse(p *core.Program, r *core.Report) {
 					if strings.HasSuffix(s, ".WriteByte") || strings.HasSuffix(s, ".ReadByte") {
 						unit = "byte"
 					}
-				}
-				return true
-			})
-			if cl.List == nil {
-				def = unit
-				return true
+					return true
+				})
 			}
-			for _, e := range cl.List {
-				if tv, ok := fi.Pkg.TypesInfo.Types[e]; ok && tv.Value != nil && w >= 0 {
-					out[tv.Value.ExactString()] = w
+			var walk func(list []ast.Stmt) bool // returns true when the iteration ended (continue/return/break)
+			walk = func(list []ast.Stmt) bool {
+				for _, s := range list {
+					switch v := s.(type) {
+					case *ast.BlockStmt:
+						if walk(v.List) {
+							return true
+						}
+					case *ast.IfStmt:
+						if v.Init != nil {
+							if walk([]ast.Stmt{v.Init}) {
+								return true
+							}
+						}
+						scanCalls(v.Cond)
+						if b, ok := tryBool(v.Cond); ok {
+							if b {
+								if walk(v.Body.List) {
+									return true
+								}
+							} else if v.Else != nil {
+								if walk([]ast.Stmt{v.Else}) {
+									return true
+								}
+							}
+						} else {
+							// not decided by the letter: both arms may run
+							e1 := walk(v.Body.List)
+							e2 := false
+							if v.Else != nil {
+								e2 = walk([]ast.Stmt{v.Else})
+							}
+							if e1 && e2 {
+								return true
+							}
+						}
+					case *ast.SwitchStmt:
+						var tag int64
+						okTag := false
+						if v.Tag != nil {
+							tag, okTag = tryInt(v.Tag)
+						}
+						taken := false
+						var defc *ast.CaseClause
+						for _, cs := range v.Body.List {
+							cl := cs.(*ast.CaseClause)
+							if cl.List == nil {
+								defc = cl
+								continue
+							}
+							for _, ce := range cl.List {
+								match := false
+								if v.Tag != nil && okTag {
+									if cv, ok := tryInt(ce); ok && cv == tag {
+										match = true
+									}
+								} else if v.Tag == nil {
+									if b, ok := tryBool(ce); ok && b {
+										match = true
+									}
+								}
+								if match && !taken {
+									taken = true
+									if walk(cl.Body) {
+										return true
+									}
+								}
+							}
+						}
+						if !taken && defc != nil {
+							if walk(defc.Body) {
+								return true
+							}
+						}
+					case *ast.AssignStmt:
+						scanCalls(v)
+						if len(v.Lhs) == len(v.Rhs) {
+							for i, l := range v.Lhs {
+								if id, ok := l.(*ast.Ident); ok {
+									if n, ok := tryInt(v.Rhs[i]); ok {
+										if obj := info.ObjectOf(id); obj != nil {
+											ints[obj] = n
+										}
+									}
+								}
+							}
+						}
+					case *ast.BranchStmt, *ast.ReturnStmt:
+						scanCalls(v)
+						return true
+					default:
+						scanCalls(v)
+					}
 				}
+				return false
 			}
-			return true
-		})
+			walk(loop.Body.List)
+			return w, unit
+		}
+		for k, v := range letters {
+			if w, _ := walkLetter(v); w >= 0 || w == -2 {
+				out[k] = w
+			}
+		}
+		_, def = walkLetter(int64('-'))
 		return out, def
 	}
 	fw, fdef := widths(ff, "LPadInt")
